@@ -1,0 +1,133 @@
+// SPDX-FileCopyrightText: 2022 Kalle Fagerberg
+//
+// SPDX-License-Identifier: MIT
+
+//go:build verif
+
+package sync2
+
+import (
+	"sync"
+	"sync/atomic"
+)
+
+// VerifHooks are consulted at the instrumentation points when the package is
+// built with the "verif" tag: Yield before every atomic access of Map, Lock
+// before every acquisition of Map's mutex and before the blocking Lock of the
+// keyed mutexes, RWLock/RLock before the blocking Lock/RLock of KeyedRWMutex.
+// They must be set before any goroutine uses the package and not changed
+// while it is in use. A hook that returns lets the caller proceed with the
+// real operation.
+var VerifHooks struct {
+	Yield  func(site int)
+	Lock   func(site int, mu *sync.Mutex)
+	RWLock func(site int, mu *sync.RWMutex)
+	RLock  func(site int, mu *sync.RWMutex)
+}
+
+// VerifSites names the instrumentation points.
+var VerifSites = map[int]string{
+	0:   "Load:read.Load",
+	1:   "Load:mu.Lock",
+	2:   "Load:read.Load",
+	3:   "load:LoadPointer",
+	4:   "Store:read.Load",
+	5:   "Store:mu.Lock",
+	6:   "Store:read.Load",
+	7:   "Store:read.Store",
+	8:   "tryStore:LoadPointer",
+	9:   "tryStore:CompareAndSwapPointer",
+	10:  "unexpungeLocked:CompareAndSwapPointer",
+	11:  "storeLocked:StorePointer",
+	12:  "LoadOrStore:read.Load",
+	13:  "LoadOrStore:mu.Lock",
+	14:  "LoadOrStore:read.Load",
+	15:  "LoadOrStore:read.Store",
+	16:  "tryLoadOrStore:LoadPointer",
+	17:  "tryLoadOrStore:CompareAndSwapPointer",
+	18:  "tryLoadOrStore:LoadPointer",
+	19:  "LoadAndDelete:read.Load",
+	20:  "LoadAndDelete:mu.Lock",
+	21:  "LoadAndDelete:read.Load",
+	22:  "delete:LoadPointer",
+	23:  "delete:CompareAndSwapPointer",
+	24:  "Range:read.Load",
+	25:  "Range:mu.Lock",
+	26:  "Range:read.Load",
+	27:  "Range:read.Store",
+	28:  "missLocked:read.Store",
+	29:  "dirtyLocked:read.Load",
+	30:  "tryExpungeLocked:LoadPointer",
+	31:  "tryExpungeLocked:CompareAndSwapPointer",
+	32:  "tryExpungeLocked:LoadPointer",
+	100: "KeyedMutex.LockKey:Lock",
+	101: "KeyedRWMutex.LockKey:Lock",
+	102: "KeyedRWMutex.RLockKey:RLock",
+}
+
+func verifYield(site int) {
+	if h := VerifHooks.Yield; h != nil {
+		h(site)
+	}
+}
+
+func verifLock(site int, mu *sync.Mutex) {
+	if h := VerifHooks.Lock; h != nil {
+		h(site, mu)
+	}
+}
+
+func verifRWLock(site int, mu *sync.RWMutex) {
+	if h := VerifHooks.RWLock; h != nil {
+		h(site, mu)
+	}
+}
+
+func verifRLock(site int, mu *sync.RWMutex) {
+	if h := VerifHooks.RLock; h != nil {
+		h(site, mu)
+	}
+}
+
+// VerifLayout is a read-only snapshot of the internal layout of a Map, for
+// coverage reporting by external verification only.
+type VerifLayout struct {
+	Amended    bool // read map is missing keys that are in dirty
+	DirtyNil   bool // no dirty map
+	NRead      int  // entries in the read map
+	NDirtyOnly int  // entries only in the dirty map
+	NLive      int  // read entries holding a value
+	NNil       int  // read entries deleted (nil)
+	NExpunged  int  // read entries expunged
+	Misses     int
+}
+
+// VerifLayout reports the current layout. It takes the map's mutex (without
+// passing through the hooks) and does not modify anything.
+func (m *Map[K, V]) VerifLayout() VerifLayout {
+	m.mu.Lock()
+	defer m.mu.Unlock()
+	read, _ := m.read.Load().(readOnly[K, V])
+	l := VerifLayout{Amended: read.amended, DirtyNil: m.dirty == nil, NRead: len(read.m), Misses: m.misses}
+	for _, e := range read.m {
+		switch p := atomic.LoadPointer(&e.p); p {
+		case nil:
+			l.NNil++
+		case expunged:
+			l.NExpunged++
+		default:
+			l.NLive++
+		}
+	}
+	for k := range m.dirty {
+		if _, ok := read.m[k]; !ok {
+			l.NDirtyOnly++
+		}
+	}
+	return l
+}
+
+// VerifLayout reports the layout of the set's underlying map.
+func (s *Set[T]) VerifLayout() VerifLayout {
+	return s.m.VerifLayout()
+}
